@@ -102,6 +102,8 @@ type Gen struct {
 	obNames    map[string]int
 	assumptions []string // textual list of unchecked assumptions used
 	callCount  map[string]int
+	sitesSeen  map[string]bool // contract anchors (callsite / ghost) that matched a call of the function
+	siteOrd    map[ssa.Instruction]int // call instruction -> ordinal among the calls to its callee, in source order
 	loopOfHeader map[*ssa.BasicBlock]*loopInfo
 	retCount   int
 	watch      []WatchTerm
@@ -124,6 +126,7 @@ type Gen struct {
 	genMerges      map[string]*genMerge // merge generation -> incoming heaps and edge conditions
 	pendingAsserts []Clause
 	pendingGhosts  []Clause
+	pendingGhostRes map[string]Val // ghost name -> value returned by the call the ghost is anchored at
 	ghostVals      map[string]Val
 	ghostDefs      []ghostDef
 	assertsSeen    map[string]bool
